@@ -198,39 +198,41 @@ def gen_case(rng, k):
     defs = DEFS
     nsol = rng.choice([1, 2, 2, 3])
     L = []
+    S = {}
     meta = {"kinds": set(["solution"]), "iso": False}
     for n in range(1, nsol + 1):
-        L.append("SOLUTION %d case %d" % (n, k))
-        L.append(" temp %s" % fmt(rng.choice([25, 25, 10, 40, 60])))
-        L.append(" pH %s" % fmt(rng.uniform(5.5, 9.0)))
+        S[n] = []
+        S[n].append("SOLUTION %d case %d" % (n, k))
+        S[n].append(" temp %s" % fmt(rng.choice([25, 25, 10, 40, 60])))
+        S[n].append(" pH %s" % fmt(rng.uniform(5.5, 9.0)))
         if rng.random() < 0.5:
-            L.append(" pe %s" % fmt(rng.uniform(-2, 12)))
-        L.append(" units mmol/kgw")
+            S[n].append(" pe %s" % fmt(rng.uniform(-2, 12)))
+        S[n].append(" units mmol/kgw")
         na = rng.uniform(0.1, 300)
-        L.append(" Na %s" % fmt(na))
-        L.append(" Cl %s charge" % fmt(na))
+        S[n].append(" Na %s" % fmt(na))
+        S[n].append(" Cl %s charge" % fmt(na))
         if rng.random() < 0.8:
-            L.append(" Ca %s" % fmt(rng.uniform(0.05, 20)))
+            S[n].append(" Ca %s" % fmt(rng.uniform(0.05, 20)))
         if rng.random() < 0.8:
-            L.append(" C(4) %s" % fmt(rng.uniform(0.05, 10)))
+            S[n].append(" C(4) %s" % fmt(rng.uniform(0.05, 10)))
         if rng.random() < 0.5:
-            L.append(" Mg %s" % fmt(rng.uniform(0.05, 10)))
+            S[n].append(" Mg %s" % fmt(rng.uniform(0.05, 10)))
         if rng.random() < 0.5:
-            L.append(" S(6) %s" % fmt(rng.uniform(0.05, 10)))
+            S[n].append(" S(6) %s" % fmt(rng.uniform(0.05, 10)))
         if rng.random() < 0.4:
-            L.append(" K %s" % fmt(rng.uniform(0.05, 5)))
+            S[n].append(" K %s" % fmt(rng.uniform(0.05, 5)))
         if rng.random() < 0.3:
-            L.append(" Sr %s" % fmt(rng.uniform(0.01, 1)))
+            S[n].append(" Sr %s" % fmt(rng.uniform(0.01, 1)))
         if rng.random() < 0.25:
-            L.append(" Fe(2) %s" % fmt(rng.uniform(0.001, 0.1)))
+            S[n].append(" Fe(2) %s" % fmt(rng.uniform(0.001, 0.1)))
         if rng.random() < 0.25:
-            L.append(" Zn %s" % fmt(rng.uniform(0.0001, 0.01)))
+            S[n].append(" Zn %s" % fmt(rng.uniform(0.0001, 0.01)))
         if rng.random() < 0.2:
-            L.append(" -water %s" % fmt(rng.uniform(0.2, 3)))
+            S[n].append(" -water %s" % fmt(rng.uniform(0.2, 3)))
         if k % 9 == 4 and n == 1:
             meta["iso"] = True
-            L.append(" -isotope 13C %s 1.0" % fmt(rng.uniform(-20, 0)))
-            L.append(" -isotope 34S %s" % fmt(rng.uniform(0, 20)))
+            S[n].append(" -isotope 13C %s 1.0" % fmt(rng.uniform(-20, 0)))
+            S[n].append(" -isotope 34S %s" % fmt(rng.uniform(0, 20)))
     for n in range(1, nsol + 1):
         if rng.random() < 0.55:
             meta["kinds"].add("exchange")
@@ -290,6 +292,8 @@ def gen_case(rng, k):
                 L.append(" CH4(g) %s" % fmt(rng.uniform(0.0, 0.01)))
         if rng.random() < 0.35:
             meta["kinds"].add("ss")
+            if not any(x.startswith(" Sr ") for x in S[n]):
+                S[n].append(" Sr %s" % fmt(rng.uniform(0.01, 1)))      # (without Sr the solid solution does not converge)
             L.append("SOLID_SOLUTIONS %d" % n)
             L.append(" CaSrCO3")
             L.append("  -comp Aragonite %s" % fmt(rng.choice([0, 0.001, 0.05])))
@@ -351,6 +355,7 @@ def gen_case(rng, k):
         L.append("END")
     meta["kinds"] = sorted(meta["kinds"])
     meta["nsol"] = nsol
+    L = [x for n in sorted(S) for x in S[n]] + L
     return defs, "\n".join(L) + "\n", meta
 
 
